@@ -3,7 +3,7 @@
    enabled when scheduled does nothing) from s0.  Threads: TC b = consumer goroutine (b = the select case it
    picks), TU i = user thread i, TTick = the ticker.  All statements hold for every queue capacity, every
    bufio size, every family of user programs and every schedule unless a premise says otherwise. *)
-From Dastard Require Import Common.ZX C07.Conc C07.Model C07.Spec C07.Proofs.
+From Dastard Require Import Common.ZX C07.Conc C07.Model C07.Spec C07.Proofs C07.Variant.
 
 (* At every moment the logical stream  file ++ (bytes in the consumer's hands: parked write, rest of the
    chunk, bufio buffer) ++ queued chunks  is the concatenation of the accepted Writes in acceptance order;
@@ -47,3 +47,68 @@ Theorem logical_stream_whole_records_refuted_pre_fix :
   stream old_final <> concat (map (@concat Z) (ok_records (log old_final))).
 Proof. exact whole_records_refuted_pre_fix_witness. Qed.
 Print Assumptions logical_stream_whole_records_refuted_pre_fix.
+
+(* Flush / Close.  Premise [ctl_discipline]: all Flush/Close calls come from one thread (any number of
+   Flush calls; Write calls from any thread, also while a Flush/Close is in progress and after Close) and
+   that thread calls neither after its Close - what dastard does and what asyncbufio's comment demands.
+   Then the program never panics, and for EVERY call/return pair in the history
+       log = l1 ++ ECall i k :: l2 ++ ERet i k' f qs b :: l3      (l2 has no call/return of thread i)
+   where f, qs, b are the file, the queue and the bufio buffer at the moment of the return:
+   the file is exactly the concatenation of the first |d| accepted chunks, d contains every chunk accepted
+   before the call began (order preserved), the rest of what was accepted meanwhile is still queued in order,
+   and the buffer is empty. *)
+Theorem flush_completes :
+  forall cap bsize progs sched,
+    ctl_discipline progs ->
+    let s := run st tid step (init cap bsize progs) sched in
+    crashed s = false /\
+    forall l1 i k l2 k' f qs b l3,
+      log s = l1 ++ ECall i k :: l2 ++ ERet i k' f qs b :: l3 -> no_event_of i l2 ->
+      exists d, accepted (l1 ++ l2) = d ++ qs /\ f = concat d /\ is_prefix (accepted l1) d /\ b = [].
+Proof. exact flush_completes_reachable. Qed.
+Print Assumptions flush_completes.
+
+(* ... in particular, when no Write was accepted between call and return (one goroutine uses the writer,
+   as in dastard), Flush/Close leave queue and buffer empty and the file holds everything accepted. *)
+Theorem close_leaves_queue_and_buffer_empty :
+  forall cap bsize progs sched,
+    ctl_discipline progs ->
+    let s := run st tid step (init cap bsize progs) sched in
+    forall l1 i k l2 k' f qs b l3,
+      log s = l1 ++ ECall i k :: l2 ++ ERet i k' f qs b :: l3 -> no_event_of i l2 ->
+      accepted l2 = [] ->
+      qs = [] /\ b = [] /\ f = concat (accepted l1).
+Proof. exact close_leaves_nothing_reachable. Qed.
+Print Assumptions close_leaves_queue_and_buffer_empty.
+
+(* No deadlock: whenever a thread is inside Flush/Close (blocked sending flushNow or receiving
+   flushComplete), the consumer or that thread itself can take a step - i.e. the call can only be held up
+   by the underlying writer not returning (the schedule not running the consumer at its gate). *)
+Theorem writer_no_deadlock :
+  forall cap bsize progs sched,
+    ctl_discipline progs ->
+    let s := run st tid step (init cap bsize progs) sched in
+    forall i u, nth_error (us s) i = Some u -> is_call_pc (pc u) = true ->
+      (exists b, step s (TC b) <> None) \/ step s (TU i) <> None.
+Proof. exact writer_no_deadlock_reachable. Qed.
+Print Assumptions writer_no_deadlock.
+
+(* No livelock: along ANY schedule the number of effective consumer and user steps is bounded by the
+   initial variant plus four per tick of the ticker; so a schedule that keeps running enabled threads
+   brings every Flush/Close to its return (with writer_no_deadlock). *)
+Theorem writer_bounded_work :
+  forall cap bsize progs sched,
+    0 <= bsize ->
+    (work_steps st tid step working (init cap bsize progs) sched
+       <= V (init cap bsize progs) + 4 * other_steps tid working sched)%nat.
+Proof. exact bounded_work_reachable. Qed.
+Print Assumptions writer_bounded_work.
+
+(* The trace-inclusion checker used on the real LJH/OFF writers accepts exactly: nothing hung, and the byte
+   stream is the header followed by the records whose WriteRecord call returned nil, in call order. *)
+Theorem pipe_checker_sound :
+  forall hdr recs strm hung,
+    C07_check_pipe hdr recs strm hung = true <->
+    hung = false /\ strm = hdr ++ concat (map fst (filter snd recs)).
+Proof. exact pipe_checker_means. Qed.
+Print Assumptions pipe_checker_sound.
